@@ -353,6 +353,9 @@ def via_stack(g, w, n, peer_ip, top_matches_peer=False):
             ps.insert(g.rint(0, len(ps)), ("received", g.pick(["1.2.3.4", "127.0.2.9"])))
         if g.chance(0.3):
             ps.append((g.word("abcdefgh", 1, 5), g.pick(["", "1", "x.y", "a%41b"])))
+        if g.chance(0.06):
+            ps = ps[1:] if ps[0][0] == "branch" else [x for x in ps if x[0] != "branch"]      # an RFC 2543 sender: no branch at all
+            g.count("via_without_branch")
         vs.append(Via(g.pick(["UDP", "UDP", "TCP", "udp"]), host, port, ps))
     return vs
 
@@ -594,7 +597,15 @@ def gen_request_case(g, tier, focus=None, c17=None):
         g.count("route_mode_" + route_mode)
         if c17:
             exp.append("spec=C17 %s %s.%d" % (c17[0], c17[1], occ))
-        op = "pipe raw p=%d from=%s peer=%s port=%d tcp=- rx=%d msg=%s" % (pi, lst.tok(), hx(peer_ip), peer_port, 1 if rx else 0, hx(data))
+        tcp_id = "-"
+        if lst.proto == "TCP" and g.chance(0.6):
+            # the request arrives on an accepted TCP connection (registered for its responses before the Route set is looked
+            # at; the registration can fail - no Via, no branch - and the request is routed all the same)
+            tcp_id = str(g.rint(1, 3))
+            g.count("req_on_tcp_connection")
+            if not vias:
+                g.count("req_on_tcp_connection_without_via")
+        op = "pipe raw p=%d from=%s peer=%s port=%d tcp=%s rx=%d msg=%s" % (pi, lst.tok(), hx(peer_ip), peer_port, tcp_id, 1 if rx else 0, hx(data))
         ops.append(op + "".join(" # " + e for e in exp))
         if g.chance(0.3):
             ops.append("pipe state p=%d" % pi)
